@@ -1174,6 +1174,33 @@ pub fn excluded_word_family(pool: &Pool) -> Vec<T> {
     v
 }
 
+/// The empty word removed from a nullable language, in every way the API offers (difference with epsilon, intersection
+/// with Sigma+, with the complement of epsilon, with Sigma.Sigma*), for nullable terms of every shape - in particular
+/// loops over nullable bodies that the constructors cannot flatten.
+pub fn without_empty_word_family(pool: &Pool) -> Vec<T> {
+    let (a, bb) = (T::Chr(pool.a), T::Chr(pool.b));
+    let st = |t: &T| T::Star(b(t));
+    let astar_bstar = T::Cat2(Box::new(st(&a)), Box::new(st(&bb)));
+    let xs: Vec<T> = vec![
+        st(&a), st(&astar_bstar), st(&T::Alt2(b(&T::Eps), b(&a))), st(&T::And2(Box::new(st(&a)), Box::new(st(&T::Rng(pool.a, pool.b))))),
+        T::Plus(b(&astar_bstar)), T::Plus(Box::new(T::Cat2(Box::new(T::Opt(b(&a))), Box::new(T::Opt(b(&bb)))))),
+        T::Loop(Box::new(T::Cat2(Box::new(T::Opt(b(&a))), Box::new(T::Opt(b(&bb))))), 2, Some(2)),
+        T::Loop(b(&astar_bstar), 2, None), T::Opt(Box::new(T::Str(vec![pool.a, pool.b]))), astar_bstar.clone(),
+        st(&T::Not(b(&a))), T::Not(b(&a)), T::All, st(&T::Alt2(b(&a), Box::new(st(&bb)))), T::Eps,
+        T::Alt2(b(&T::Eps), Box::new(T::Str(vec![pool.a, pool.a]))),
+    ];
+    let mut v = vec![];
+    for x in &xs {
+        v.push(T::Diff1(b(x), b(&T::Eps)));
+        v.push(T::And2(b(x), b(&T::SigmaPlus)));
+        v.push(T::And2(b(&T::SigmaPlus), b(x)));
+        v.push(T::And2(b(x), Box::new(T::Not(b(&T::Eps)))));
+        v.push(T::And2(b(x), Box::new(T::Cat2(b(&T::AllChar), b(&T::All)))));
+        v.push(T::Cat2(Box::new(T::Diff1(b(x), b(&T::Eps))), b(&bb)));
+    }
+    v
+}
+
 /// Ranges whose end points are landmark code points (ends of narrower character types, the surrogate block, U+FFFD,
 /// planes): alone, complemented, followed by a letter, and two of them side by side.
 pub fn landmark_range_family() -> Vec<T> {
